@@ -68,6 +68,10 @@ Inductive msg :=
 | MGroupNoData             (* endGroup assertion: group did not use any data *)
 | MAssert.                 (* any other internal assertion *)
 
+(* messages that only rapid itself raises as invalid data (resource phenomena, not user decisions) *)
+Definition internal_msg (m : msg) : bool :=
+  match m with MOverrun | MFindFailed | MTooManyRej => true | _ => false end.
+
 Definition msg_eqb (a b : msg) : bool :=
   match a, b with
   | MUser x, MUser y => N.eqb x y
@@ -136,7 +140,7 @@ Inductive uev :=
 | USignal (k : failkind) (m : msg) (id : nat)    (* a PFail node executed *)
 | USkip (m : msg)
 | UReg (id : nat) | URun (id : nat)              (* cleanup registered / started *)
-| UCtxNew (c : nat) | UCtxCancel (c : nat) | UCtxSeen (c : nat) (live : bool)
+| UCtxNew | UCtxCancel | UCtxSeen (live : bool)   (* context created / cancelled / returned by Context() *)
 | UFailedSeen (b : bool)
 | ULog (n : N)
 | UChk | UAct (i : nat)                          (* state machine: invariant / action i started *)
